@@ -1,7 +1,32 @@
 /-
   C06 — arithmetic and concatenation follow the implicit type-conversion table.
+
+  "For + - * / each operand acts through its numeric value - numbers as themselves, TRUE/FALSE as
+   1/0, blank as 0, text spelling a number as that number, dates as their serial - and the result is
+   the exact arithmetic on those values, returned as a date exactly where the conversion table says
+   so (date+-number, number+date, ...) or #NUM! if that date would precede 1900; text that is neither
+   number nor date gives #VALUE! and a zero divisor #DIV/0!.  + and * are commutative, arrays combine
+   element-wise with scalars and with arrays of equal length and give #VALUE! on a length mismatch,
+   and & joins its operands as text: text verbatim, integers as their digits, blank as nothing."
+
+  The theorems are about `HotXL.Ops.evalArith` / `evalAmp` (model of `evaluate_arithmetic` in
+  hotxlfp/formulas/operators.py and of the `&` branch of grammarparser/parser.py) over the
+  GENERATED table `HotXL.Generated.convTable`.  Section 1 writes the statement down independently
+  of that table (`spec`); Section 2 reads the generated table against it by `decide`.
+
+  Vocabulary from `HotXL.Lemmas.Operators`: `NonArr v` (v is not an array), `depth v` (array
+  nesting depth), `ErrFree v` (no error value inside `v`), `eraseErr v` (every error code inside `v`
+  replaced by `#VALUE!`).  From `HotXL.Lemmas.Dates`: `serialQ`, `serialNum`, `dateOfSerial` (closed
+  forms of `serialize_date` / `parse_date`, proved equal to the model's by `decide` on the generated
+  constants).
+
+  Floats are exact rationals (`Num.flt q`): "exact arithmetic" is meant literally here; float
+  rounding is outside the model (trusted base of the harness).
 -/
 import HotXL.Model.Operators
+import HotXL.Lemmas.PyNum
+import HotXL.Lemmas.Dates
+import HotXL.Lemmas.Operators
 
 namespace HotXL.Props.C06
 open HotXL HotXL.Ops
@@ -10,5 +35,736 @@ open HotXL HotXL.Ops
 theorem arith_left_error (fuel : Nat) (op : ArithOp) (e : Err) (r : Value) :
     evalArith fuel op (.err e) r = .ok (.err e) := by
   unfold evalArith; simp [isErr]
+
+/-! ## 1. The statement, written independently of the conversion table -/
+
+/-- the operand classes of the statement; `text` = text that is neither a number nor a date
+    (and any foreign host object) -/
+inductive Cls where
+  | number | date | blank | text | error
+  deriving DecidableEq, Repr
+
+/-- a scalar operand: anything but an array -/
+abbrev Scalar (v : Value) : Prop := NonArr v
+
+/-- the Python number through which an operand acts: numbers as themselves, TRUE/FALSE as 1/0,
+    blank as 0, text spelling a number as that number (`int(s)`, else `float(s)`), dates and ISO date
+    text as their serial; `none` for other text, errors, foreign objects -/
+def numOf : Value → Option Num
+  | .num n => some n
+  | .bool b => some (.int (if b then 1 else 0))
+  | .blank => some (.int 0)
+  | .date us => some (Dates.serialNum us)
+  | .str s =>
+    match toNumberText s with
+    | .num n => some n
+    | .text => (isoDate? s).map Dates.serialNum
+  | _ => none
+
+/-- the numeric value as an exact rational -/
+def numVal (v : Value) : Option Rat := (numOf v).map Num.toRat
+
+def classify : Value → Cls
+  | .num _ => .number
+  | .bool _ => .number
+  | .blank => .blank
+  | .date _ => .date
+  | .err _ => .error
+  | .str s =>
+    match toNumberText s with
+    | .num _ => .number
+    | .text => if (isoDate? s).isSome then .date else .text
+  | _ => .text
+
+/-- where the result is returned as a date — read off the statement, not off the table:
+    for `+ - *`: number∘date, date∘number, date∘blank, blank∘date; for `/`: number/date, date/number -/
+def rewraps : ArithOp → Cls → Cls → Bool
+  | .div, .number, .date => true
+  | .div, .date, .number => true
+  | .div, _, _ => false
+  | _, .number, .date => true
+  | _, .date, .number => true
+  | _, .date, .blank => true
+  | _, .blank, .date => true
+  | _, _, _ => false
+
+/-- exact arithmetic on rationals -/
+def ratOp : ArithOp → Rat → Rat → Rat
+  | .add, x, y => x + y
+  | .sub, x, y => x - y
+  | .mul, x, y => x * y
+  | .div, x, y => x / y
+
+/-- the exact result as a Python number: `int ∘ int` stays `int` for `+ - *`, everything else
+    (in particular every `/`) is a float -/
+def exact : ArithOp → Num → Num → Num
+  | .add, .int a, .int b => .int (a + b)
+  | .sub, .int a, .int b => .int (a - b)
+  | .mul, .int a, .int b => .int (a * b)
+  | op, x, y => .flt (ratOp op (Num.toRat x) (Num.toRat y))
+
+/-- a serial number returned as a date: `#NUM!` below 0 (the date would precede 1900); a Python
+    exception (`OverflowError`, shown as `#ERROR!`) beyond 9999-12-31, i.e. from 2958464 days
+    after 1900-01-01 on -/
+def asDate (q : Rat) : Res :=
+  match Dates.dateOfSerial q with
+  | none => .ok (.err .num)
+  | some us => if us < 2958464 * 86400000000 then .ok (.date us) else .error .error
+
+/-- the statement for scalar operands: error operands first (left before right), `#VALUE!` when an
+    operand has no numeric value, `#DIV/0!` for a zero divisor, otherwise the exact result, as a
+    date exactly on `rewraps` -/
+def spec (op : ArithOp) (a b : Value) : Res :=
+  match a, b with
+  | .err e, _ => .ok (.err e)
+  | _, .err e => .ok (.err e)
+  | a, b =>
+    match numOf a, numOf b with
+    | some x, some y =>
+      if op = .div ∧ Num.toRat y = 0 then .ok (.err .div0)
+      else if rewraps op (classify a) (classify b) then asDate (Num.toRat (exact op x y))
+      else .ok (.num (exact op x y))
+    | _, _ => .ok (.err .value)
+
+/-- the text an operand of `&` contributes, for the operands the statement fixes: text verbatim,
+    integers as their decimal digits (`PyNum.intToDec`: `-` and the digits without leading zeros —
+    `Lemmas.PyNum.pyInt?_intToDec`), blank as nothing -/
+def textOf : Value → Option (List Char)
+  | .str s => some s
+  | .num (.int i) => some (PyNum.intToDec i)
+  | .blank => some []
+  | _ => none
+
+/-! ## 2. The generated table read against the statement -/
+
+def tyCls : Ty → Cls
+  | .number => .number | .date => .date | .none => .blank | .string => .text | .error => .error
+
+/-- the converter the statement requires for an operand class (as the extractor names it):
+    numbers untouched, dates serialised, blank replaced by 0 -/
+def convOf : Cls → Option String
+  | .number => some "none" | .date => some "serialize_date" | .blank => some "zero" | _ => none
+
+/-- `IMPLICIT_DATA_TYPE_CONVERSIONS` (as extracted from /repo) has a cell exactly for the classes
+    number/date/blank on both sides; its `left`/`right` converters are the ones the statement
+    requires for the two classes, and it has the `result: parse_date` key exactly on `rewraps` -/
+theorem table_cells (op : ArithOp) (lt rt : Ty) :
+    convLookup op lt rt =
+      (match convOf (tyCls lt), convOf (tyCls rt) with
+       | some l, some r => some (l, r, if rewraps op (tyCls lt) (tyCls rt) then "parse_date" else "absent")
+       | _, _ => none) := by
+  cases op <;> cases lt <;> cases rt <;> decide +kernel
+
+/-- the table has a row exactly for the left classes number/date/blank -/
+theorem table_rows (op : ArithOp) (lt : Ty) : leftTypeKnown op lt = (convOf (tyCls lt)).isSome := by
+  cases op <;> cases lt <;> decide +kernel
+
+/-- `datetime.max` lies 2958464 days after 1900-01-01 (exclusive bound of `parse_date` results) -/
+theorem year_9999_bound : usEnd = 2958464 * 86400000000 := by decide +kernel
+
+/-! ## 3. Scalars -/
+
+private def opCls : Operand → Cls
+  | .number _ => .number | .date _ => .date | .none => .blank | .string _ => .text | .error _ => .text
+
+private def opNum : Operand → Option Num
+  | .number n => some n | .date us => some (Dates.serialNum us) | .none => some (.int 0) | _ => none
+
+private theorem classify_eq (v : Value) (ha : NonArr v) (he : isErr v = none) :
+    classify v = opCls (valueAndType v) := by
+  cases v with
+  | str s =>
+    simp only [classify, valueAndType]
+    cases toNumberText s with
+    | num n => rfl
+    | text => cases isoDate? s <;> rfl
+  | arr xs => exact absurd rfl (ha xs)
+  | err e => simp [isErr] at he
+  | _ => rfl
+
+private theorem numOf_eq (v : Value) (ha : NonArr v) (he : isErr v = none) :
+    numOf v = opNum (valueAndType v) := by
+  cases v with
+  | str s =>
+    simp only [numOf, valueAndType]
+    cases toNumberText s with
+    | num n => rfl
+    | text => cases isoDate? s <;> rfl
+  | arr xs => exact absurd rfl (ha xs)
+  | err e => simp [isErr] at he
+  | _ => rfl
+
+private theorem applyOp_eq (op : ArithOp) (x y : Num) :
+    applyOp op x y = if op = .div ∧ Num.toRat y = 0 then none else some (exact op x y) := by
+  cases op <;> cases x <;> cases y <;>
+    simp [applyOp, exact, numAdd, numSub, numMul, numDiv, Num.isZero, ratOp]
+
+private theorem parseDateValue_eq (q : Rat) :
+    (match parseDateValue q with | some v => (.ok v : Res) | none => .error .error) = asDate q := by
+  unfold parseDateValue asDate
+  rw [Dates.parseNum_eq, year_9999_bound]
+  cases Dates.dateOfSerial q with
+  | none => rfl
+  | some us => by_cases h : us < 2958464 * 86400000000 <;> simp only [h, ↓reduceIte]
+
+/-- what a table cell with `result` key `w` computes, in the statement's terms -/
+private theorem cell_close (op : ArithOp) (x y : Num) (w : Bool) :
+    (match applyOp op x y with
+     | some n =>
+       (match applyResult (if w = true then "parse_date" else "absent") n with
+        | some v => (.ok v : Res)
+        | none => .error .error)
+     | none => .ok (.err .div0)) =
+    if op = .div ∧ Num.toRat y = 0 then .ok (.err .div0)
+    else if w = true then asDate (Num.toRat (exact op x y)) else .ok (.num (exact op x y)) := by
+  rw [applyOp_eq]
+  by_cases h : op = .div ∧ Num.toRat y = 0
+  · simp only [h, and_self, ↓reduceIte]
+  · simp only [h, ↓reduceIte]
+    cases w
+    · simp only [Bool.false_eq_true, ↓reduceIte, applyResult]
+    · simp only [↓reduceIte, applyResult]
+      exact parseDateValue_eq _
+
+private theorem spec_nonerr (op : ArithOp) (a b : Value) (ha : isErr a = none) (hb : isErr b = none) :
+    spec op a b =
+      (match numOf a, numOf b with
+       | some x, some y =>
+         if op = .div ∧ Num.toRat y = 0 then .ok (.err .div0)
+         else if rewraps op (classify a) (classify b) then asDate (Num.toRat (exact op x y))
+         else .ok (.num (exact op x y))
+       | _, _ => .ok (.err .value)) := by
+  cases a <;> cases b <;> first | rfl | (simp [isErr] at ha hb)
+
+private theorem spec_err_left (op : ArithOp) (e : Err) (b : Value) : spec op (.err e) b = .ok (.err e) := by
+  cases b <;> rfl
+
+private theorem spec_err_right (op : ArithOp) (a : Value) (e : Err) (h : isErr a = none) :
+    spec op a (.err e) = .ok (.err e) := by
+  cases a <;> first | rfl | simp [isErr] at h
+
+/-- the 5 × 5 class cells, for all four operators at once: each is closed by the generated table
+    entry (`table_rows`, `table_cells`) and the converters' closed forms -/
+private theorem arithScalar_spec (op : ArithOp) (a b : Value) (ha : NonArr a) (hb : NonArr b)
+    (hea : isErr a = none) (heb : isErr b = none) : arithScalar op a b = spec op a b := by
+  rw [spec_nonerr op a b hea heb, classify_eq a ha hea, classify_eq b hb heb, numOf_eq a ha hea,
+    numOf_eq b hb heb]
+  unfold arithScalar
+  generalize valueAndType a = lo
+  generalize valueAndType b = ro
+  simp only [table_rows, table_cells]
+  cases lo <;> cases ro <;>
+    simp only [Operand.ty, tyCls, convOf, opCls, opNum, applyConv, Option.isSome, Bool.not_true,
+      Bool.not_false, Bool.false_eq_true, ↓reduceIte]
+  all_goals first
+    | exact cell_close _ _ _ _
+    | (simp only [Dates.serialize_eq]; exact cell_close _ _ _ _)
+
+/-- SCALARS.  For every operator, every two non-array operands and every fuel,
+    `evaluate_arithmetic` returns exactly what the statement says (`spec`): the left error, else the
+    right error, else `#VALUE!` if an operand has no numeric value, else `#DIV/0!` for `/` by a zero
+    value, else the exact result on the numeric values (int∘int stays int for `+ - *`, float
+    otherwise), re-wrapped as a date exactly in the cells number∘date, date∘number, date∘blank,
+    blank∘date (for `/` only number/date and date/number) with `#NUM!` for a negative serial. -/
+theorem scalar_spec (fuel : Nat) (op : ArithOp) (a b : Value) (ha : Scalar a) (hb : Scalar b) :
+    evalArith fuel op a b = spec op a b := by
+  cases hea : isErr a with
+  | some e => rw [isErr_eq_some hea, evalArith_err_left, spec_err_left]
+  | none =>
+    cases heb : isErr b with
+    | some e => rw [isErr_eq_some heb, evalArith_err_right _ _ _ _ hea, spec_err_right _ _ _ hea]
+    | none => rw [evalArith_scalar fuel op a b hea heb ha hb, arithScalar_spec op a b ha hb hea heb]
+
+/-- the Python number `exact` has the value of the exact rational operation -/
+theorem exact_value (op : ArithOp) (x y : Num) :
+    Num.toRat (exact op x y) = ratOp op (Num.toRat x) (Num.toRat y) := by
+  cases op <;> cases x <;> cases y <;>
+    simp [exact, ratOp, Num.toRat]
+
+/-- outside the date cells and away from a zero divisor, two operands with numeric values `x`, `y`
+    give the number `x ∘ y` exactly -/
+theorem scalar_number_result (fuel : Nat) (op : ArithOp) (a b : Value) (x y : Rat)
+    (ha : Scalar a) (hb : Scalar b) (hx : numVal a = some x) (hy : numVal b = some y)
+    (hz : ¬ (op = .div ∧ y = 0)) (hw : rewraps op (classify a) (classify b) = false) :
+    ∃ n, evalArith fuel op a b = .ok (.num n) ∧ Num.toRat n = ratOp op x y := by
+  have hea : isErr a = none := by cases a <;> first | rfl | simp [numVal, numOf] at hx
+  have heb : isErr b = none := by cases b <;> first | rfl | simp [numVal, numOf] at hy
+  rw [scalar_spec fuel op a b ha hb, spec_nonerr op a b hea heb]
+  unfold numVal at hx hy
+  cases hxa : numOf a with
+  | none => simp [hxa] at hx
+  | some p =>
+    cases hyb : numOf b with
+    | none => simp [hyb] at hy
+    | some r =>
+      simp only [hxa, hyb, Option.map_some, Option.some.injEq] at hx hy
+      subst hx; subst hy
+      exact ⟨exact op p r, by simp only [hz, hw, ↓reduceIte, Bool.false_eq_true], exact_value op p r⟩
+
+example : ∃ n, evalArith 0 .sub (.str "1.5".toList) (.bool true) = .ok (.num n) ∧ Num.toRat n = 1 / 2 := by
+  obtain ⟨n, h1, h2⟩ := scalar_number_result 0 .sub (.str "1.5".toList) (.bool true) (3 / 2) 1
+    (fun _ h => by cases h) (fun _ h => by cases h) (by decide +kernel) (by decide +kernel)
+    (by decide) (by decide +kernel)
+  exact ⟨n, h1, by rw [h2]; norm_num [ratOp]⟩
+
+/-- whole numbers stay whole numbers under `+ - *` -/
+theorem int_arith (fuel : Nat) (i j : Int) :
+    evalArith fuel .add (.num (.int i)) (.num (.int j)) = .ok (.num (.int (i + j))) ∧
+    evalArith fuel .sub (.num (.int i)) (.num (.int j)) = .ok (.num (.int (i - j))) ∧
+    evalArith fuel .mul (.num (.int i)) (.num (.int j)) = .ok (.num (.int (i * j))) := by
+  refine ⟨?_, ?_, ?_⟩ <;>
+    rw [scalar_spec _ _ _ _ (fun _ h => by cases h) (fun _ h => by cases h)] <;> rfl
+
+/-- text that is neither a number nor a date (or any operand without a numeric value) gives
+    `#VALUE!`, whatever the other non-error operand is -/
+theorem value_error (fuel : Nat) (op : ArithOp) (a b : Value) (ha : Scalar a) (hb : Scalar b)
+    (hea : isErr a = none) (heb : isErr b = none) (h : numVal a = none ∨ numVal b = none) :
+    evalArith fuel op a b = .ok (.err .value) := by
+  rw [scalar_spec fuel op a b ha hb, spec_nonerr op a b hea heb]
+  unfold numVal at h
+  rcases h with h | h
+  · rw [Option.map_eq_none_iff] at h; rw [h]
+  · rw [Option.map_eq_none_iff] at h; rw [h]
+    cases numOf a <;> rfl
+
+example : evalArith 0 .mul (.num (.int 2)) (.str "abc".toList) = .ok (.err .value) :=
+  value_error 0 .mul _ _ (fun _ h => by cases h) (fun _ h => by cases h) rfl rfl
+    (Or.inr (by decide +kernel))
+
+/-- DIV/0.  A divisor whose numeric value is 0 (0, 0.0, FALSE, blank, "0", …) gives `#DIV/0!`
+    whenever the dividend has a numeric value -/
+theorem div_zero (fuel : Nat) (a b : Value) (x : Rat) (ha : Scalar a) (hb : Scalar b)
+    (hx : numVal a = some x) (hy : numVal b = some 0) :
+    evalArith fuel .div a b = .ok (.err .div0) := by
+  have hea : isErr a = none := by cases a <;> first | rfl | simp [numVal, numOf] at hx
+  have heb : isErr b = none := by cases b <;> first | rfl | simp [numVal, numOf] at hy
+  rw [scalar_spec fuel .div a b ha hb, spec_nonerr .div a b hea heb]
+  unfold numVal at hx hy
+  cases hxa : numOf a with
+  | none => simp [hxa] at hx
+  | some p =>
+    cases hyb : numOf b with
+    | none => simp [hyb] at hy
+    | some r =>
+      simp only [hyb, Option.map_some, Option.some.injEq] at hy
+      simp only [hy, and_self, ↓reduceIte]
+
+example (fuel : Nat) :
+    evalArith fuel .div (.num (.int 7)) (.num (.int 0)) = .ok (.err .div0) ∧
+    evalArith fuel .div (.num (.int 7)) (.num (.flt 0)) = .ok (.err .div0) ∧
+    evalArith fuel .div (.bool true) (.bool false) = .ok (.err .div0) ∧
+    evalArith fuel .div (.str "2.5".toList) .blank = .ok (.err .div0) ∧
+    evalArith fuel .div (.date 86400000000) (.str "0".toList) = .ok (.err .div0) := by
+  refine ⟨?_, ?_, ?_, ?_, ?_⟩
+  · exact div_zero fuel _ _ 7 (fun _ h => by cases h) (fun _ h => by cases h) (by decide +kernel) (by decide +kernel)
+  · exact div_zero fuel _ _ 7 (fun _ h => by cases h) (fun _ h => by cases h) (by decide +kernel) (by decide +kernel)
+  · exact div_zero fuel _ _ 1 (fun _ h => by cases h) (fun _ h => by cases h) (by decide +kernel) (by decide +kernel)
+  · exact div_zero fuel _ _ (5 / 2) (fun _ h => by cases h) (fun _ h => by cases h) (by decide +kernel) (by decide +kernel)
+  · exact div_zero fuel _ _ 2 (fun _ h => by cases h) (fun _ h => by cases h) (by decide +kernel) (by decide +kernel)
+
+/-! ## 4. Dates -/
+
+/-- the value of the serial as a Python number is the closed-form serial -/
+theorem toRat_serialNum (us : Int) : Num.toRat (Dates.serialNum us) = Dates.serialQ us := by
+  unfold Dates.serialNum
+  by_cases h : us = 0
+  · simp [h, Dates.serialQ, Num.toRat]
+  · simp [h, Num.toRat]
+
+/-- date + number in closed form, no side conditions: the serial `serial d + n` returned as a
+    date (`asDate`: `#NUM!` below 0, 1900-01-01 below 1, day `serial-1` up to 60, `serial-2` above) -/
+theorem date_plus_number (fuel : Nat) (d : Int) (n : Num) :
+    evalArith fuel .add (.date d) (.num n) = asDate (Dates.serialQ d + Num.toRat n) := by
+  rw [scalar_spec _ _ _ _ (fun _ h => by cases h) (fun _ h => by cases h)]
+  show asDate (Num.toRat (exact .add (Dates.serialNum d) n)) = _
+  rw [exact_value, toRat_serialNum]; rfl
+
+/-- DATE SHIFT.  date + number (in either order) is the date `d'` whose serial is
+    `serial d + n`, for any datetime `d'` from 1900-01-01 to 9999-12-31 with that serial
+    (microsecond resolution; `serialQ` is the closed form of `serialize_date`) -/
+theorem date_shift (fuel : Nat) (d : Int) (n : Num) (d' : Int) (h0 : 0 ≤ d')
+    (hr : d' < 2958464 * 86400000000) (hs : Dates.serialQ d + Num.toRat n = Dates.serialQ d') :
+    evalArith fuel .add (.date d) (.num n) = .ok (.date d') ∧
+    evalArith fuel .add (.num n) (.date d) = .ok (.date d') := by
+  have e1 : asDate (Num.toRat (exact .add (Dates.serialNum d) n)) = .ok (.date d') := by
+    rw [exact_value, toRat_serialNum]
+    show asDate (Dates.serialQ d + Num.toRat n) = _
+    rw [hs]; unfold asDate; rw [Dates.dateOfSerial_serialQ d' h0]
+    simp only [hr, ↓reduceIte]
+  have e2 : asDate (Num.toRat (exact .add n (Dates.serialNum d))) = .ok (.date d') := by
+    rw [exact_value, toRat_serialNum]
+    show asDate (Num.toRat n + Dates.serialQ d) = _
+    rw [Rat.add_comm, hs]; unfold asDate; rw [Dates.dateOfSerial_serialQ d' h0]
+    simp only [hr, ↓reduceIte]
+  constructor
+  · rw [scalar_spec _ _ _ _ (fun _ h => by cases h) (fun _ h => by cases h)]
+    exact e1
+  · rw [scalar_spec _ _ _ _ (fun _ h => by cases h) (fun _ h => by cases h)]
+    exact e2
+
+/-- from 1900-03-01 on, adding the whole number `i` to a datetime moves it by exactly `i` days
+    (any time of day; the result must stay between 1900-03-01 and 9999-12-31) -/
+theorem date_shift_days (fuel : Nat) (d i : Int) (h1 : 59 * 86400000000 ≤ d)
+    (h2 : 59 * 86400000000 ≤ d + i * 86400000000) (h3 : d + i * 86400000000 < 2958464 * 86400000000) :
+    evalArith fuel .add (.date d) (.num (.int i)) = .ok (.date (d + i * 86400000000)) :=
+  (date_shift fuel d (.int i) _ (by omega) h3 (Dates.serialQ_add_days d i h1 h2)).1
+
+/-- 2020-01-15T06:00 (43843.25 days after 1900-01-01) + 10 = 2020-01-25T06:00 -/
+example : evalArith 0 .add (.date 3788056800000000) (.num (.int 10)) = .ok (.date 3788920800000000) :=
+  date_shift_days 0 3788056800000000 10 (by decide) (by decide) (by decide)
+
+/-- a date result whose serial would be negative is `#NUM!`, e.g. number − date -/
+theorem date_before_1900 (fuel : Nat) (d : Int) (n : Num) (h : Num.toRat n - Dates.serialQ d < 0) :
+    evalArith fuel .sub (.num n) (.date d) = .ok (.err .num) := by
+  rw [scalar_spec _ _ _ _ (fun _ h => by cases h) (fun _ h => by cases h)]
+  show asDate (Num.toRat (exact .sub n (Dates.serialNum d))) = _
+  rw [exact_value, toRat_serialNum]
+  show asDate (Num.toRat n - Dates.serialQ d) = _
+  unfold asDate Dates.dateOfSerial
+  simp only [h, ↓reduceIte]
+
+example : evalArith 0 .sub (.num (.int 1)) (.date 3788056800000000) = .ok (.err .num) :=
+  date_before_1900 0 _ _ (by decide +kernel)
+
+/-- DATE − DATE is a plain number: the difference of the two serials -/
+theorem date_minus_date (fuel : Nat) (a b : Int) :
+    ∃ n, evalArith fuel .sub (.date a) (.date b) = .ok (.num n) ∧
+      Num.toRat n = Dates.serialQ a - Dates.serialQ b := by
+  refine ⟨exact .sub (Dates.serialNum a) (Dates.serialNum b), ?_, ?_⟩
+  · rw [scalar_spec _ _ _ _ (fun _ h => by cases h) (fun _ h => by cases h)]; rfl
+  · rw [exact_value, toRat_serialNum, toRat_serialNum]; rfl
+
+/-- … which from 1900-03-01 on is the elapsed time in days -/
+theorem date_minus_date_days (fuel : Nat) (a b : Int) (ha : 59 * 86400000000 ≤ a)
+    (hb : 59 * 86400000000 ≤ b) :
+    ∃ n, evalArith fuel .sub (.date a) (.date b) = .ok (.num n) ∧
+      Num.toRat n = ((a - b : Int) : Rat) / 86400000000 := by
+  obtain ⟨n, h1, h2⟩ := date_minus_date fuel a b
+  exact ⟨n, h1, by rw [h2, Dates.serialQ_sub_late a b ha hb]⟩
+
+example : ∃ n, evalArith 0 .sub (.date 3788920800000000) (.date 3788056800000000) = .ok (.num n) ∧
+    Num.toRat n = ((3788920800000000 - 3788056800000000 : Int) : Rat) / 86400000000 :=
+  date_minus_date_days 0 _ _ (by decide) (by decide)
+
+/-! ## 5. Commutativity of `+` and `*` -/
+
+private theorem rewraps_comm (op : ArithOp) (h : op = .add ∨ op = .mul) (c1 c2 : Cls) :
+    rewraps op c1 c2 = rewraps op c2 c1 := by
+  rcases h with rfl | rfl <;> cases c1 <;> cases c2 <;> rfl
+
+private theorem exact_comm (op : ArithOp) (h : op = .add ∨ op = .mul) (x y : Num) :
+    exact op x y = exact op y x := by
+  rcases h with rfl | rfl <;> cases x <;> cases y <;>
+    simp [exact, ratOp, Int.add_comm, Int.mul_comm, Rat.add_comm, Rat.mul_comm]
+
+private theorem spec_comm (op : ArithOp) (h : op = .add ∨ op = .mul) (a b : Value)
+    (hne : isErr a = none ∨ isErr b = none) : spec op a b = spec op b a := by
+  cases hea : isErr a with
+  | some e =>
+    have heb : isErr b = none := by
+      rcases hne with h | h
+      · rw [hea] at h; cases h
+      · exact h
+    rw [isErr_eq_some hea, spec_err_left, spec_err_right _ _ _ heb]
+  | none =>
+    cases heb : isErr b with
+    | some e => rw [isErr_eq_some heb, spec_err_left, spec_err_right _ _ _ hea]
+    | none =>
+      have hd : op ≠ .div := by rcases h with rfl | rfl <;> decide
+      rw [spec_nonerr _ _ _ hea heb, spec_nonerr _ _ _ heb hea, rewraps_comm op h (classify a) (classify b)]
+      cases numOf a <;> cases numOf b <;> simp only [hd, false_and, ↓reduceIte, exact_comm op h]
+
+/-- COMMUTATIVITY on scalars: `a ∘ b = b ∘ a` for `+` and `*` unless both operands are errors … -/
+theorem comm_scalar (op : ArithOp) (hop : op = .add ∨ op = .mul) (f1 f2 : Nat) (a b : Value)
+    (ha : Scalar a) (hb : Scalar b) (hne : isErr a = none ∨ isErr b = none) :
+    evalArith f1 op a b = evalArith f2 op b a := by
+  rw [scalar_spec f1 op a b ha hb, scalar_spec f2 op b a hb ha, spec_comm op hop a b hne]
+
+/-- … in which case each order reports its own left operand (the only way the two orders differ) -/
+theorem comm_both_errors (op : ArithOp) (f1 f2 : Nat) (e1 e2 : Err) :
+    evalArith f1 op (.err e1) (.err e2) = .ok (.err e1) ∧
+    evalArith f2 op (.err e2) (.err e1) = .ok (.err e2) :=
+  ⟨evalArith_err_left _ _ _ _, evalArith_err_left _ _ _ _⟩
+
+/-- COMMUTATIVITY, all values (arrays of any length and any nesting, errors anywhere): for any two
+    fuels that cover the nesting depth, `a ∘ b` and `b ∘ a` are equal up to WHICH error code is
+    reported at positions holding an error (`eraseErr` replaces every error code by `#VALUE!`). -/
+theorem comm_up_to_error_code (op : ArithOp) (hop : op = .add ∨ op = .mul) (a b : Value) (f1 f2 : Nat)
+    (hf1 : depth a + depth b ≤ f1) (hf2 : depth a + depth b ≤ f2) :
+    (evalArith f1 op a b).map eraseErr = (evalArith f2 op b a).map eraseErr := by
+  refine comm_core op eraseErr eraseErr_arr (fun _ _ => True) (fun _ _ _ _ _ => trivial)
+    (fun _ _ _ _ _ => trivial) ?_ (depth a + depth b) a b f1 f2 trivial (Nat.le_refl _) hf1 hf2
+  intro f1 f2 a b ha hb _
+  rw [scalar_spec f1 op a b ha hb, scalar_spec f2 op b a hb ha]
+  cases hea : isErr a with
+  | none => rw [spec_comm op hop a b (Or.inl hea)]
+  | some e1 =>
+    cases heb : isErr b with
+    | none => rw [spec_comm op hop a b (Or.inr heb)]
+    | some e2 =>
+      rw [isErr_eq_some hea, isErr_eq_some heb, spec_err_left, spec_err_left]
+      simp only [Except.map, eraseErr_err]
+
+/-- COMMUTATIVITY, exact: if at least one of the two operands contains no error value,
+    `a ∘ b = b ∘ a` on the nose (so the two orders can differ only in the code of an error met
+    on both sides at corresponding positions) -/
+theorem comm_exact (op : ArithOp) (hop : op = .add ∨ op = .mul) (a b : Value) (f1 f2 : Nat)
+    (hE : ErrFree a ∨ ErrFree b)
+    (hf1 : depth a + depth b ≤ f1) (hf2 : depth a + depth b ≤ f2) :
+    evalArith f1 op a b = evalArith f2 op b a := by
+  have := comm_core op id (fun l => by simp) (fun a b => ErrFree a ∨ ErrFree b)
+    (fun xs b h x hx => h.elim (fun h => Or.inl (h.elem x hx)) Or.inr)
+    (fun a ys h y hy => h.elim Or.inl (fun h => Or.inr (h.elem y hy))) ?_
+    (depth a + depth b) a b f1 f2 hE (Nat.le_refl _) hf1 hf2
+  · rwa [except_map_id, except_map_id] at this
+  · intro f1 f2 a b ha hb hE
+    have : isErr a = none ∨ isErr b = none := by
+      rcases hE with h | h
+      · cases h with
+        | scalar _ h => exact Or.inl h
+        | arr _ => exact absurd rfl (ha _)
+      · cases h with
+        | scalar _ h => exact Or.inr h
+        | arr _ => exact absurd rfl (hb _)
+    rw [comm_scalar op hop f1 f2 a b ha hb this]
+
+/-- `+` is commutative on ALL values: `a + b` and `b + a` agree except for the code of an error
+    met on both sides at corresponding positions, and agree exactly when one side is error-free -/
+theorem comm_add (a b : Value) (f1 f2 : Nat)
+    (hf1 : depth a + depth b ≤ f1) (hf2 : depth a + depth b ≤ f2) :
+    (evalArith f1 .add a b).map eraseErr = (evalArith f2 .add b a).map eraseErr ∧
+    (ErrFree a ∨ ErrFree b → evalArith f1 .add a b = evalArith f2 .add b a) :=
+  ⟨comm_up_to_error_code .add (Or.inl rfl) a b f1 f2 hf1 hf2,
+   fun hE => comm_exact .add (Or.inl rfl) a b f1 f2 hE hf1 hf2⟩
+
+/-- `*` is commutative on ALL values, in the same sense -/
+theorem comm_mul (a b : Value) (f1 f2 : Nat)
+    (hf1 : depth a + depth b ≤ f1) (hf2 : depth a + depth b ≤ f2) :
+    (evalArith f1 .mul a b).map eraseErr = (evalArith f2 .mul b a).map eraseErr ∧
+    (ErrFree a ∨ ErrFree b → evalArith f1 .mul a b = evalArith f2 .mul b a) :=
+  ⟨comm_up_to_error_code .mul (Or.inr rfl) a b f1 f2 hf1 hf2,
+   fun hE => comm_exact .mul (Or.inr rfl) a b f1 f2 hE hf1 hf2⟩
+
+/-- non-vacuity: `{{1,2},{3}} * {10,"x"}` (nested, with a one-element sub-array, text on the other
+    side, depth 2 + 1) with two different fuels -/
+example : evalArith 3 .mul (.arr [.arr [.num (.int 1), .num (.int 2)], .arr [.num (.int 3)]])
+              (.arr [.num (.int 10), .str "x".toList]) =
+          evalArith 5 .mul (.arr [.num (.int 10), .str "x".toList])
+              (.arr [.arr [.num (.int 1), .num (.int 2)], .arr [.num (.int 3)]]) := by
+  have eb : ErrFree (.arr [.num (.int 10), .str "x".toList]) := by
+    refine .arr ?_
+    intro x hx
+    simp only [List.mem_cons, List.not_mem_nil, or_false] at hx
+    rcases hx with rfl | rfl
+    · exact .scalar (fun _ h => by cases h) rfl
+    · exact .scalar (fun _ h => by cases h) rfl
+  exact (comm_mul _ _ 3 5 (by decide) (by decide)).2 (Or.inr eb)
+
+/-! ### regression: the instances on which `+`/`*` were NOT commutative before /repo commit 2c0a146
+    (one-element arrays holding an error or an array), now symmetric -/
+
+private theorem i_nonArr (i : Int) : NonArr (.num (.int i)) := fun _ h => by cases h
+
+/-- evaluating `[x₁, x₂] ∘ [y₁, y₂]` -/
+private theorem zip2 (f : Nat) (op : ArithOp) (x1 x2 y1 y2 v1 v2 : Value)
+    (h1 : evalArith f op x1 y1 = .ok v1) (h2 : evalArith f op x2 y2 = .ok v2) :
+    zipArith f op [x1, x2] [y1, y2] = .ok [v1, v2] := by
+  rw [zipArith_cons, zipArith_cons, zipArith_nil_left, h1, h2]; rfl
+
+/-- `{#N/A} ∘ {1,2}` and `{1,2} ∘ {#N/A}` are both `#N/A` (was `{#N/A,#N/A}` on the right) -/
+theorem comm_regression_singleton_error (op : ArithOp) :
+    evalArith 2 op (.arr [.err .na]) (.arr [.num (.int 1), .num (.int 2)]) = .ok (.err .na) ∧
+    evalArith 2 op (.arr [.num (.int 1), .num (.int 2)]) (.arr [.err .na]) = .ok (.err .na) := by
+  constructor
+  · rw [evalArith_one_left _ _ _ _ (by decide), evalArith_err_left]
+  · rw [evalArith_one_right _ _ _ _ (by decide), evalArith_err_right _ _ _ _ rfl]
+
+/-- `{{1}} + {3,4}` and `{3,4} + {{1}}` are both `{4,5}` (the second was `#VALUE!`) -/
+theorem comm_regression_nested_singleton :
+    evalArith 3 .add (.arr [.arr [.num (.int 1)]]) (.arr [.num (.int 3), .num (.int 4)]) =
+      .ok (.arr [.num (.int 4), .num (.int 5)]) ∧
+    evalArith 3 .add (.arr [.num (.int 3), .num (.int 4)]) (.arr [.arr [.num (.int 1)]]) =
+      .ok (.arr [.num (.int 4), .num (.int 5)]) := by
+  constructor
+  · rw [evalArith_one_left _ _ _ _ (by decide), evalArith_one_left _ _ _ _ (by decide),
+      evalArith_arr_right _ _ _ _ rfl (i_nonArr 1)]
+    show Except.map Value.arr (zipArith 0 .add [.num (.int 1), .num (.int 1)] _) = _
+    rw [zip2 0 .add _ _ _ _ _ _ (int_arith 0 1 3).1 (int_arith 0 1 4).1]
+    rfl
+  · rw [evalArith_one_right _ _ _ _ (by decide), evalArith_one_right _ _ _ _ (by decide),
+      evalArith_arr_left _ _ _ _ rfl (by intro zs h; cases h), adaptValue_nonArr _ _ (i_nonArr 1)]
+    show (if (List.replicate 2 (Value.num (.int 1))).length ≠ 2 then _ else
+      Except.map Value.arr (zipArith 0 .add _ [.num (.int 1), .num (.int 1)])) = _
+    rw [if_neg (by decide), zip2 0 .add _ _ _ _ _ _ (int_arith 0 3 1).1 (int_arith 0 4 1).1]
+    rfl
+
+/-- `{{1,2}} + {5}` and `{5} + {{1,2}}` are both `{{6,7}}` (the second was `#VALUE!`) -/
+theorem comm_regression_singleton_of_array :
+    evalArith 3 .add (.arr [.arr [.num (.int 1), .num (.int 2)]]) (.arr [.num (.int 5)]) =
+      .ok (.arr [.arr [.num (.int 6), .num (.int 7)]]) ∧
+    evalArith 3 .add (.arr [.num (.int 5)]) (.arr [.arr [.num (.int 1), .num (.int 2)]]) =
+      .ok (.arr [.arr [.num (.int 6), .num (.int 7)]]) := by
+  constructor
+  · have inner : evalArith 2 .add (.arr [.num (.int 1), .num (.int 2)]) (.num (.int 5)) =
+        .ok (.arr [.num (.int 6), .num (.int 7)]) := by
+      rw [evalArith_arr_left _ _ _ _ rfl (by intro zs h; cases h), adaptValue_nonArr _ _ (i_nonArr 5)]
+      show (if (List.replicate 2 (Value.num (.int 5))).length ≠ 2 then _ else
+        Except.map Value.arr (zipArith 1 .add _ [.num (.int 5), .num (.int 5)])) = _
+      rw [if_neg (by decide), zip2 1 .add _ _ _ _ _ _ (int_arith 1 1 5).1 (int_arith 1 2 5).1]
+      rfl
+    rw [evalArith_one_one, inner]; rfl
+  · have inner : evalArith 2 .add (.num (.int 5)) (.arr [.num (.int 1), .num (.int 2)]) =
+        .ok (.arr [.num (.int 6), .num (.int 7)]) := by
+      rw [evalArith_arr_right _ _ _ _ rfl (i_nonArr 5)]
+      show Except.map Value.arr (zipArith 1 .add [.num (.int 5), .num (.int 5)] _) = _
+      rw [zip2 1 .add _ _ _ _ _ _ (int_arith 1 5 1).1 (int_arith 1 5 2).1]
+      rfl
+    rw [evalArith_one_one, inner]; rfl
+
+/-! ## 6. Arrays -/
+
+/-- ARRAY ∘ SCALAR is element-wise: every element is combined with the (non-error) scalar, in
+    order; a Python exception inside an element aborts the whole operation (`mapM`).
+    Any length (including 0 and 1), any nesting of the elements. -/
+theorem array_scalar (f : Nat) (op : ArithOp) (xs : List Value) (s : Value)
+    (hs : Scalar s) (hse : isErr s = none) :
+    evalArith (f + 1) op (.arr xs) s = (xs.mapM (fun x => evalArith f op x s)).map .arr := by
+  rw [evalArith_arr_left f op xs s hse (by intro ys h; exact absurd h (hs ys)),
+    adaptValue_nonArr _ _ hs, if_neg (by simp), zipArith_replicate_right f op xs s _ rfl]
+
+/-- SCALAR ∘ ARRAY is element-wise too, with the scalar on the left of every element (the
+    reflected operators `__rsub__`, `__rtruediv__` keep the operand order) -/
+theorem scalar_array (f : Nat) (op : ArithOp) (s : Value) (ys : List Value)
+    (hs : Scalar s) (hse : isErr s = none) :
+    evalArith (f + 1) op s (.arr ys) = (ys.mapM (fun y => evalArith f op s y)).map .arr := by
+  rw [evalArith_arr_right f op s ys hse hs, zipArith_replicate_left f op ys s _ rfl]
+
+/-- two one-element arrays: `{x} ∘ {y} = {x ∘ y}`, whatever `x` and `y` are -/
+theorem array_array_single (f : Nat) (op : ArithOp) (x y : Value) :
+    evalArith (f + 1) op (.arr [x]) (.arr [y]) = (evalArith f op x y).map (fun v => .arr [v]) :=
+  evalArith_one_one f op x y
+
+/-- ARRAY ∘ ARRAY of equal length — ANY length, 0 and 1 included, any nesting — is the
+    element-wise zip -/
+theorem array_array (f : Nat) (op : ArithOp) (xs ys : List Value) (hl : xs.length = ys.length) :
+    evalArith (f + 1) op (.arr xs) (.arr ys) =
+      ((xs.zip ys).mapM (fun p => evalArith f op p.1 p.2)).map .arr := by
+  rcases length_eq_one_or xs with ⟨x, rfl⟩ | h1
+  · obtain ⟨y, rfl⟩ : ∃ y, ys = [y] := List.length_eq_one_iff.mp hl.symm
+    rw [evalArith_one_one]
+    simp only [List.zip_cons_cons, List.zip_nil_right, List.mapM_cons, List.mapM_nil]
+    cases evalArith f op x y <;> rfl
+  · rw [evalArith_arr_left f op xs (.arr ys) rfl (by intro zs h; cases h; exact ⟨h1, by omega⟩),
+      adaptValue_arr _ _ (by omega), if_neg (by simp [hl]), zipArith_eq_mapM]
+
+/-- LENGTH MISMATCH: two arrays of different lengths, neither of length 1, give `#VALUE!` -/
+theorem array_mismatch (f : Nat) (op : ArithOp) (xs ys : List Value)
+    (hl : xs.length ≠ ys.length) (hx : xs.length ≠ 1) (hy : ys.length ≠ 1) :
+    evalArith (f + 1) op (.arr xs) (.arr ys) = .ok (.err .value) := by
+  rw [evalArith_arr_left f op xs (.arr ys) rfl (by intro zs h; cases h; exact ⟨hx, hy⟩),
+    adaptValue_arr _ _ hy, if_pos (fun h => hl h.symm)]
+
+/-- a one-element array acts as its element — whatever that element is (scalar, error, array of any
+    nesting): on the left of an array of another length … -/
+theorem array_single_left (f : Nat) (op : ArithOp) (x : Value) (ys : List Value) (h : ys.length ≠ 1) :
+    evalArith (f + 1) op (.arr [x]) (.arr ys) = evalArith f op x (.arr ys) :=
+  evalArith_one_left f op x ys h
+
+/-- … and on the right of an array of another length -/
+theorem array_single_right (f : Nat) (op : ArithOp) (xs : List Value) (y : Value) (h : xs.length ≠ 1) :
+    evalArith (f + 1) op (.arr xs) (.arr [y]) = evalArith f op (.arr xs) y :=
+  evalArith_one_right f op xs y h
+
+/-- non-vacuity of the one-element rules at depth: `{{{7}}} - {1,2}` unwraps three levels -/
+example : evalArith 4 .sub (.arr [.arr [.arr [.num (.int 7)]]]) (.arr [.num (.int 1), .num (.int 2)]) =
+    evalArith 1 .sub (.num (.int 7)) (.arr [.num (.int 1), .num (.int 2)]) := by
+  rw [array_single_left _ _ _ _ (by decide), array_single_left _ _ _ _ (by decide),
+    array_single_left _ _ _ _ (by decide)]
+
+/-- an error scalar against an array is that error (no broadcasting) -/
+theorem array_error_scalar (f : Nat) (op : ArithOp) (xs : List Value) (e : Err) :
+    evalArith f op (.arr xs) (.err e) = .ok (.err e) ∧ evalArith f op (.err e) (.arr xs) = .ok (.err e) :=
+  ⟨evalArith_err_right _ _ _ _ rfl, evalArith_err_left _ _ _ _⟩
+
+/-- `{1,2,3} - 1 = {0,1,2}`, `10 / {2,"x",0} = {5.0,#VALUE!,#DIV/0!}`, `{1,2} * {3,4} = {3,8}`,
+    `{1,2} + {1,2,3} = #VALUE!` -/
+example :
+    evalArith 1 .sub (.arr [.num (.int 1), .num (.int 2), .num (.int 3)]) (.num (.int 1)) =
+      .ok (.arr [.num (.int 0), .num (.int 1), .num (.int 2)]) ∧
+    evalArith 1 .div (.num (.int 10)) (.arr [.num (.int 2), .str "x".toList, .num (.int 0)]) =
+      .ok (.arr [.num (.flt 5), .err .value, .err .div0]) ∧
+    evalArith 1 .mul (.arr [.num (.int 1), .num (.int 2)]) (.arr [.num (.int 3), .num (.int 4)]) =
+      .ok (.arr [.num (.int 3), .num (.int 8)]) ∧
+    evalArith 1 .add (.arr [.num (.int 1), .num (.int 2)])
+        (.arr [.num (.int 1), .num (.int 2), .num (.int 3)]) = .ok (.err .value) := by
+  have sc : ∀ i : Int, Scalar (.num (.int i)) := fun _ _ h => by cases h
+  refine ⟨?_, ?_, ?_, ?_⟩
+  · rw [array_scalar 0 .sub _ _ (sc 1) rfl]
+    simp only [List.mapM_cons, List.mapM_nil, (int_arith 0 _ _).2.1]
+    rfl
+  · rw [scalar_array 0 .div _ _ (sc 10) rfl]
+    have h1 : evalArith 0 .div (.num (.int 10)) (.num (.int 2)) = .ok (.num (.flt 5)) := by
+      rw [scalar_spec _ _ _ _ (sc 10) (sc 2)]
+      simp only [spec, numOf, classify, rewraps, exact, ratOp, Num.toRat]
+      norm_num
+    have h2 : evalArith 0 .div (.num (.int 10)) (.str "x".toList) = .ok (.err .value) :=
+      value_error 0 .div _ _ (sc 10) (fun _ h => by cases h) rfl rfl (Or.inr (by decide +kernel))
+    have h3 : evalArith 0 .div (.num (.int 10)) (.num (.int 0)) = .ok (.err .div0) :=
+      div_zero 0 _ _ 10 (sc 10) (sc 0) (by decide +kernel) (by decide +kernel)
+    simp only [List.mapM_cons, List.mapM_nil, h1, h2, h3]
+    rfl
+  · rw [array_array 0 .mul [.num (.int 1), .num (.int 2)] [.num (.int 3), .num (.int 4)] rfl]
+    simp only [List.zip_cons_cons, List.zip_nil_right, List.mapM_cons, List.mapM_nil,
+      (int_arith 0 _ _).2.2]
+    rfl
+  · exact array_mismatch 0 .add _ _ (by decide) (by decide) (by decide)
+
+/-! ## 7. Concatenation `&` -/
+
+/-- CONCATENATION.  For operands that are text, whole numbers or blank, `a & b` is the text of `a`
+    followed by the text of `b`: text verbatim, integers as their decimal digits, blank as nothing -/
+theorem concat_spec (a b : Value) (s t : List Char) (ha : textOf a = some s) (hb : textOf b = some t) :
+    evalAmp a b = .ok (.str (s ++ t)) := by
+  have pa : pyStr? a = some s ∧ isErr a = none := by
+    cases a with
+    | num n => cases n <;> simp_all [textOf, pyStr?, isErr]
+    | _ => simp_all [textOf, pyStr?, isErr]
+  have pb : pyStr? b = some t ∧ isErr b = none := by
+    cases b with
+    | num n => cases n <;> simp_all [textOf, pyStr?, isErr]
+    | _ => simp_all [textOf, pyStr?, isErr]
+  unfold evalAmp
+  simp only [pa.1, pa.2, pb.1, pb.2]
+
+/-- an error operand of `&` is returned as is, the left one first -/
+theorem concat_error (a b : Value) (e : Err) :
+    evalAmp (.err e) b = .ok (.err e) ∧ (isErr a = none → evalAmp a (.err e) = .ok (.err e)) := by
+  constructor
+  · simp [evalAmp, isErr]
+  · intro h; unfold evalAmp; simp only [h]; simp [isErr]
+
+/-- the digits `&` writes for a whole number spell that number again: `(i & "") + 0 = i` -/
+theorem concat_int_roundtrip (fuel : Nat) (i : Int) :
+    evalAmp (.num (.int i)) .blank = .ok (.str (PyNum.intToDec i)) ∧
+    evalArith fuel .add (.str (PyNum.intToDec i)) (.num (.int 0)) = .ok (.num (.int i)) := by
+  constructor
+  · have := concat_spec (.num (.int i)) .blank _ _ rfl rfl
+    simpa using this
+  · rw [scalar_spec _ _ _ _ (fun _ h => by cases h) (fun _ h => by cases h)]
+    have : numOf (.str (PyNum.intToDec i)) = some (.int i) := by
+      simp only [numOf, toNumberText, PyNum.pyInt?_intToDec]
+    have hc : classify (.str (PyNum.intToDec i)) = .number := by
+      simp only [classify, toNumberText, PyNum.pyInt?_intToDec]
+    rw [spec_nonerr _ _ _ rfl rfl, this, hc]
+    simp [numOf, classify, rewraps, exact]
+
+/-- `"ab" & 12 = "ab12"`, `-7 & "" = "-7"`, blank & "x" = "x" -/
+example : evalAmp (.str "ab".toList) (.num (.int 12)) = .ok (.str "ab12".toList) ∧
+    evalAmp (.num (.int (-7))) (.str []) = .ok (.str "-7".toList) ∧
+    evalAmp .blank (.str "x".toList) = .ok (.str "x".toList) := by
+  refine ⟨?_, ?_, ?_⟩
+  · exact concat_spec _ _ "ab".toList "12".toList rfl (by decide +kernel)
+  · exact concat_spec _ _ "-7".toList [] (by decide +kernel) rfl
+  · exact concat_spec _ _ [] "x".toList rfl rfl
 
 end HotXL.Props.C06
